@@ -16,7 +16,7 @@ import pandas as pd
 from vf import core, gen, pipe, symx
 
 ID = "C07"
-FORMULAS = ["y ~ center(x) + g", "y ~ C(g) + x + (x|g)", "y ~ poly(x, 2, raw=True):f + scale(z)", "y ~ x + f + (1|g) + (f|h)", "y ~ shift(x) + g"]
+FORMULAS = ["y ~ center(x) + g", "y ~ C(k) + C(g) + x + (x|g)", "y ~ poly(x, 2, raw=True):f + scale(z)", "y ~ x + f + (1|g) + (f|h)", "y ~ shift(x) + g"]
 MODES = ["error", "silent", "warning"]
 
 
@@ -39,7 +39,14 @@ def fresh_formulae(sym):
     for k in list(sys.modules):
         if k == "formulae" or k.startswith("formulae."):
             del sys.modules[k]
-    import formulae  # noqa
+    import importlib.metadata as _md
+
+    real_version = _md.version
+    _md.version = lambda name: "0"  # formulae/__init__ looks its version up in the metadata: ~50 ms per import
+    try:
+        import formulae  # noqa
+    finally:
+        _md.version = real_version
 
     pipe._installed = False
     if sym:
@@ -51,7 +58,10 @@ def fresh_formulae(sym):
 def frames(env):
     out = []
     for b, (prefix, order, unseen) in enumerate((("a_", "sorted", False), ("b_", "scramble", False), ("c_", "reversed", True))):
-        df, rows = gen.build_frame(env, ["y", "x", "z", "f", "g", "h"], "str", order, prefix=prefix)
+        cols = ["y", "x", "z", "f", "g", "k"] + (["h"] if harness.tier != "quick" else [])  # quick: 18-row frames
+        df, rows = gen.build_frame(env, cols, "str", order, prefix=prefix)
+        if b == 1:
+            df["k"] = df["k"].astype(float)  # the same ids stored as floats in another table
         df = df.iloc[: 8 if b else len(df)].reset_index(drop=True) if b else df
         if unseen:
             col = list(df["g"].values)
@@ -194,6 +204,7 @@ def harness(env, case):
             op = ("build", first, first_frame)
         else:
             options = [("build", a, b) for a in fsel for b in ((2,) if harness.tier == "quick" else (0, 2))]
+            options.append(("build", 1, 1))  # the C(k) formula on the frame that stores the ids as floats
             options += [("evalc", d, b) for d in range(len(designs)) for b in ((0, 2) if harness.tier == "quick" else (0, 1, 2))]
             options += [("evalg", d, b) for d in range(len(designs)) if designs[d].group is not None for b in (0, 2)]
             options += [("cfg", m) for m in range(len(MODES) if harness.tier != "quick" else 2) if m != cur_mode]
